@@ -1,6 +1,6 @@
 #!/bin/sh
 # thorough tier of every check, sequentially (run from a snapshot via vp run)
-for p in C03 C18 C15 C12 C08 C14 C13 C16 C10 C09 C02; do
+for p in C09 C03 C08 C14 C13 C12 C16 C10 C02 C15 C18; do
   s=$(date +%s)
   DSIM_EVIDENCE_DIR=$PWD/thorough_evidence ./check $p --tier thorough > thorough_$p.log 2>&1
   rc=$?
